@@ -293,6 +293,23 @@ fn build_utxo(u: &Value) -> Option<Utxo> {
         }
     }
     let m = if family == "twostage" { 2 } else { m };
+    // optional ballast in front: <n bytes> OP_DROP, so scripts and subscripts cross the 75/76 push boundary and the
+    // 252/253 compact-size boundary (script length is serialised inside both preimage formats)
+    let pad = jusize(u, "pad");
+    if pad > 0 {
+        let mut p = vec![];
+        if pad <= 75 {
+            p.push(pad as u8);
+        } else if pad <= 255 {
+            p.extend([0x4c, pad as u8]);
+        } else {
+            p.push(0x4d);
+            p.extend((pad as u16).to_le_bytes());
+        }
+        p.extend(std::iter::repeat(0x5a).take(pad));
+        items.insert(0, vec![0x75]);
+        items.insert(0, p);
+    }
     let check_idx = items.len() - 1;
     // separators at positions <= check_idx (before item p)
     let mut seps: Vec<usize> = u.get("seps").and_then(|s| s.as_array()).map(|a| a.iter().map(|x| x.as_u64().unwrap_or(0) as usize % (check_idx + 1)).collect()).unwrap_or_default();
@@ -317,7 +334,7 @@ fn build_utxo(u: &Value) -> Option<Utxo> {
             last_sep_end = lock.len();
             branch_tail = None;
         }
-        if family == "twostage" && p == 1 {
+        if family == "twostage" && p == 1 + if pad > 0 { 2 } else { 0 } {
             first_check_sub_start = last_sep_end;
         }
         lock.extend_from_slice(it);
@@ -415,7 +432,7 @@ impl Scenario for SpendNet {
             let mut txid = rng.bytes(32);
             txid[0] = u as u8;
             utxos.push(json!({"family": family, "m": rng.range(1, n), "keys": keys, "verify": rng.chance(1, 3), "uncompressed": rng.chance(1, 5), "seps": seps,
-                "sep_in_branch": rng.chance(1, 12), "branch_at": rng.below(8), "value": u64s(match rng.below(4) { 0 => 0, 1 => u64::MAX, _ => rng.below(1 << 44) }), "txid": hx(&txid), "vout": rng.below(3)}));
+                "sep_in_branch": rng.chance(1, 12), "branch_at": rng.below(8), "pad": if rng.chance(1, 4) { *rng.pick(&[1u64, 75, 76, 200, 255, 256, 300]) } else { 0 }, "value": u64s(match rng.below(4) { 0 => 0, 1 => u64::MAX, _ => rng.below(1 << 44) }), "txid": hx(&txid), "vout": rng.below(3)}));
         }
         let mut events = vec![json!({"op": "setup", "utxos": utxos, "version": *rng.pick(&[1u32, 2, 0, u32::MAX]), "locktime": *rng.pick(&[0u32, 1, 499_999_999, u32::MAX])})];
         let n_events = rng.range(6, 40);
